@@ -336,16 +336,19 @@ def run(ctx, rep):
     rep.tlc("MC_MultiDict_table (observer record of every list <= 6)", r)
     _G["table"] = {json.dumps(x["list"]): x["obs"] for x in r.printed}
     # --- histories
-    cfg = os.path.join(ctx.scratch, "hist.cfg")
-    with open(cfg, "w") as f:
-        f.write('SPECIFICATION Spec\nCONSTANT D = %d\nCONSTANT Mode = "hist"\nCONSTANT MaxLen = 99\n'
-                'INVARIANT EmitHist\nCHECK_DEADLOCK FALSE\n' % (3,))
-    r = tlc.run("MC_MultiDict", cfg, workers=1, scratch=ctx.scratch)
-    rep.tlc("MC_MultiDict_hist (all histories of depth 3)", r)
-    hists = r.printed
-    if len(hists) < 1000:
-        raise RuntimeError("history emission failed: %d" % len(hists))
-    rep.exhaustive["histories<=3 x 4 classes"] = True
+    hists = []
+    plans = [(3, "full")] + ([(4, "core")] if ctx.thorough else [])
+    for dd, subset in plans:
+        cfg = os.path.join(ctx.scratch, "hist.cfg")
+        with open(cfg, "w") as f:
+            f.write('SPECIFICATION Spec\nCONSTANT D = %d\nCONSTANT Mode = "hist"\nCONSTANT OpSubset = "%s"\nCONSTANT MaxLen = 99\n'
+                    'INVARIANT EmitHist\nCHECK_DEADLOCK FALSE\n' % (dd, subset))
+        r = tlc.run("MC_MultiDict", cfg, workers=1, scratch=ctx.scratch, timeout=3000)
+        rep.tlc("MC_MultiDict_hist (all histories of depth %d, %s operation set)" % (dd, subset), r)
+        if len(r.printed) < 1000:
+            raise RuntimeError("history emission failed: %d" % len(r.printed))
+        rep.exhaustive["histories of depth %d (%s op set) x 4 classes" % (dd, subset)] = True
+        hists += r.printed
     names = list(_G["classes"])
     jobs = [(c, h) for h in hists for c in (names if ctx.thorough else names)]
     res = pool_map(_replay_hist, jobs)
@@ -357,6 +360,8 @@ def run(ctx, rep):
             raise RuntimeError(out[1])
         if out[0] == "fail":
             rep.fail(out[1], out[2], out[3])
+        else:
+            rep.traces_validated += 1
     rep.sample({"kind": "history replayed on PVLModule", "ops": [s["o"] for s in hists[len(hists) // 3]],
                 "expected_final_list": hists[len(hists) // 3][-1]["post"]})
     # --- random walks judged by TLC
